@@ -16,5 +16,5 @@ CONSTANTS
   Lifts = {0}
   RhoS = {0}
 SPECIFICATION Spec
-INVARIANTS RefusedIffUnqualified Progress BlsOut
-CHECK_DEADLOCK FALSE
+INVARIANTS RefusedIffUnqualified BlsOut
+CHECK_DEADLOCK TRUE
